@@ -784,6 +784,8 @@ func (g *generator) enterNextFinallyFrame() (canContinue bool) {
 			vm.throw(ex)
 			return true
 		}
+		// restoreStacks runs iterator return() methods, which push try frames and may reallocate vm.tryStack
+		tf = &vm.tryStack[len(vm.tryStack)-1]
 		if tf.finallyPos >= 0 {
 			vm.sp = int(tf.sp)
 			vm.stash = tf.stash
